@@ -701,12 +701,12 @@ where
     let mut st = stats.into_inner();
     match result {
         Ok(()) => {}
-        Err(TestError::Fail(_, value)) => {
+        Err(TestError::Fail(reason, value)) => {
             let fail = match test(&value) {
                 Err(f) => f,
                 Ok(_) => Fail::new(
                     "flaky: shrunk case passed on re-run",
-                    "the minimal case did not fail when re-executed",
+                    format!("the minimal case did not fail when re-executed; it had failed with: {reason}"),
                 ),
             };
             st.failure = Some((serde_json::to_value(&value).unwrap_or(Value::Null), fail));
